@@ -87,7 +87,7 @@ def do_run(ids):
                 break
             subprocess.run('rm -rf %s && mkdir %s && git -C /repo archive HEAD | tar -x -C %s' % (scr, scr, scr), shell=True, check=True)
         if a.returncode != 0:
-            rows.append((meta['seed'], pid, 'n/a', 'patch no longer applies to HEAD (the code it changed was since repaired)', meta['title']))
+            rows.append((meta['seed'], pid, 'n/a', 'patch no longer applies to HEAD: ' + meta.get('superseded', 'the code it changed was since repaired'), meta['title']))
             print(rows[-1]); continue
         env = dict(os.environ, VX_REPO=scr, VX_NO_WITNESS=os.environ.get('VX_NO_WITNESS', '1'))
         p = subprocess.run([os.path.join(ROOT, 'check'), pid], capture_output=True, text=True, env=env)
